@@ -61,12 +61,17 @@ Seeds == <<
      Asg("import", "accept"),
      [op |-> "DelPol", name |-> "p1", all |-> TRUE, preserve |-> FALSE, stmts |-> <<>>],
      Ev(Rt(Px, "A", "192.0.2.1", <<65001>>, <<>>, <<>>, <<>>, "valid"), "import", "A", "export", "B")>>],
-  \* KF-C10-api-origin-cond, KF-C10-api-commaction-type (read-back through the API)
-  [name |-> "api-readback", steps |-> <<
+  \* KF-C10-api-origin-cond (read-back through the API)
+  [name |-> "api-readback-origin", steps |-> <<
      [op |-> "AddStmt", stmt |-> Stmt("st1", {Cond("origin", "", "", "", 1, {})}, {Act("origin", "", 2, 0, {}, "")}, "accept")],
-     [op |-> "AddStmt", stmt |-> Stmt("st2", {Cond("origin", "", "", "", 0, {})},
-                                      {Act("ext", "remove", 0, 0, {"rt:65001:100"}, ""), Act("large", "add", 0, 0, {"65001:1:1"}, "")}, "none")],
+     [op |-> "AddStmt", stmt |-> Stmt("st2", {Cond("origin", "", "", "", 0, {})}, {}, "none")],
      [op |-> "AddPol", name |-> "p1", refer |-> TRUE, stmts |-> <<BareStmt("st1"), BareStmt("st2")>>],
+     [op |-> "SetAsg", dir |-> "import", pols |-> <<"p1">>, def |-> "accept"]>>],
+  \* KF-C10-api-commaction-type (read-back through the API)
+  [name |-> "api-readback-commact", steps |-> <<
+     [op |-> "AddStmt", stmt |-> Stmt("st2", {}, {Act("ext", "remove", 0, 0, {"rt:65001:100"}, ""),
+                                                   Act("large", "add", 0, 0, {"65001:1:1"}, "")}, "none")],
+     [op |-> "AddPol", name |-> "p1", refer |-> TRUE, stmts |-> <<BareStmt("st2")>>],
      [op |-> "SetAsg", dir |-> "import", pols |-> <<"p1">>, def |-> "accept"]>>] >>
 
 SeedInit == seed \in 1..Len(Seeds)
